@@ -15,7 +15,11 @@ RULE = (
     "and of 2pi (both sides), subnormals, -0.0; tolerance 1e-9..1e-2 (log-uniform + the default 1e-4).  Oracle: exact "
     "rational sum of n_i/2^d_i times pi vs. the angle, circular distance < tol (+1e-13), with pi read as the real number (60 digits) or as the double the code reduces with - either reading is accepted, "
     "every n,d an int in 0..255, bounded number of steps; pipeline: q.rot_X/Y/Z(angle=a) emits exactly these steps.  "
-    "Non-trivial = angle not within tol of 0 mod 2pi (>=1 step needed); distinct by (angle, tol)"
+    "Non-trivial = angle not within tol of 0 mod 2pi (>=1 step needed); distinct by (angle, tol).  "
+    "Type dimension: the same angles handed over as numpy.float64 and as an instance of a float subclass (both ARE floats), same oracle, direct and through q.rot_*.  "
+    "Program dimension: float-angle rotations inside generated SDK programs (default / generic / NV hardware config, 1-3 initial qubits, several subroutines, qubits "
+    "created / measured / gated around the rotations, incl. the two NV relocation paths); the emitted subroutines are interpreted by a small address-tracking model "
+    "(set/qalloc/qfree/mov) and every logical qubit must receive exactly the steps of the rotations requested on it, in order, on an allocated address, and nothing else"
 )
 ASSUMPTIONS = [
     "'modulo 2 pi' may be read with the exact real pi or with the double-precision constant 2*pi (Python's float % is exact, so the code's own reduction has no error under that reading); a result within tolerance under either reading is accepted, so an implementation that reduces with extended precision is not reported",
@@ -36,12 +40,35 @@ def _alarm(signum, frame):
     raise _Timeout()
 
 
-def spec(angle: float, tol):
+class _SubFloat(float):
+    """an instance of a subclass of float is a float"""
+
+
+TYPES = ("float", "np.float64", "float-subclass")
+
+
+def typed(angle: float, typ: str):
+    """the same finite double, handed over as another float type (numpy.float64 is a subclass of float)"""
+    if typ == "float":
+        return angle
+    if typ == "np.float64":
+        import numpy as np
+
+        v = np.float64(angle)
+    elif typ == "float-subclass":
+        v = _SubFloat(angle)
+    else:
+        raise ValueError(typ)
+    assert isinstance(v, float) and float(v) == angle or angle != angle
+    return v
+
+
+def spec(angle: float, tol, typ: str = "float"):
     from netqasm.sdk.toolbox.state_prep import get_angle_spec_from_float
 
     if tol is None:
-        return get_angle_spec_from_float(angle)
-    return get_angle_spec_from_float(angle, tol)
+        return get_angle_spec_from_float(typed(angle, typ))
+    return get_angle_spec_from_float(typed(angle, typ), tol)
 
 
 def circ_dist(nds, angle: float) -> Fraction:
@@ -81,45 +108,54 @@ class _TooFar(Exception):
     pass
 
 
-def check_angle(angle: float, tol) -> int:
+def check_angle(angle: float, tol, typ: str = "float") -> int:
     case = {"kind": "spec", "angle": repr(angle), "tol": None if tol is None else repr(tol)}
+    sfx = ""
+    if typ != "float":
+        case["typ"] = typ
+        sfx = ":" + typ
     eff_tol = 1e-4 if tol is None else tol
+    shown = repr(angle) if typ == "float" else f"{typ}({angle!r})"
     try:
-        nds = spec(angle, tol)
+        nds = spec(angle, tol, typ)
     except _Timeout:
         raise
     except Exception as e:
-        raise Failure("spec:raises", case, f"get_angle_spec_from_float({angle!r}, {tol!r}) raised {type(e).__name__}: {e}")
+        raise Failure("spec:raises" + sfx, case, f"get_angle_spec_from_float({shown}, {tol!r}) raised {type(e).__name__}: {e}")
     if len(nds) > MAX_STEPS:
-        raise Failure("spec:too-many-steps", case, f"{len(nds)} steps")
+        raise Failure("spec:too-many-steps" + sfx, case, f"{len(nds)} steps")
     for n, d in nds:
         if not (isinstance(n, int) and isinstance(d, int) and 0 <= n <= 255 and 0 <= d <= 255):
-            raise Failure("spec:not-encodable", case, f"step (n={n!r}, d={d!r}) of {nds} is not representable in 8-bit fields")
+            raise Failure("spec:not-encodable" + sfx, case, f"step (n={n!r}, d={d!r}) of {nds} is not representable in 8-bit fields")
     try:
         within(nds, angle, eff_tol)
     except _TooFar as e:
         raise Failure(
-            "spec:tolerance", case, f"steps {nds} are {float(e.args[0]):.3e} away from angle {angle!r} (mod 2pi); tolerance {eff_tol!r}"
+            "spec:tolerance" + sfx, case, f"steps {nds} are {float(e.args[0]):.3e} away from angle {shown} (mod 2pi); tolerance {eff_tol!r}"
         )
     return len(nds)
 
 
-def check_pipeline(angle: float, axis: str) -> int:
+def check_pipeline(angle: float, axis: str, typ: str = "float") -> int:
     from checks.c16 import _debug_conn
     from netqasm.backend.messages import deserialize_host_msg
     from netqasm.lang.parsing import deserialize
     from netqasm.sdk.qubit import Qubit
 
     case = {"kind": "pipeline", "angle": repr(angle), "axis": axis}
+    sfx = ""
+    if typ != "float":
+        case["typ"] = typ
+        sfx = ":" + typ
     conn = _debug_conn()
     q = Qubit(conn)
     try:
-        getattr(q, "rot_" + axis)(angle=angle)
+        getattr(q, "rot_" + axis)(angle=typed(angle, typ))
         conn.flush()
     except _Timeout:
         raise
     except Exception as e:
-        raise Failure("pipeline:rejected", case, f"q.rot_{axis}(angle={angle!r}) raised {type(e).__name__}: {e}")
+        raise Failure("pipeline:rejected" + sfx, case, f"q.rot_{axis}(angle={typ}:{angle!r}) raised {type(e).__name__}: {e}")
     subs = []
     for raw in conn.storage:
         m = deserialize_host_msg(raw)
@@ -128,15 +164,143 @@ def check_pipeline(angle: float, axis: str) -> int:
     got = [(i.angle_num.value, i.angle_denom.value) for s in subs for i in s.instructions if i.mnemonic.startswith("rot_")]
     mns = {i.mnemonic for s in subs for i in s.instructions if i.mnemonic.startswith("rot_")}
     if mns - {"rot_" + axis.lower()}:
-        raise Failure("pipeline:axis", case, f"emitted {mns}")
+        raise Failure("pipeline:axis" + sfx, case, f"emitted {mns}")
     want = [tuple(x) for x in spec(angle, None)]
     if got != want:
-        raise Failure("pipeline:steps", case, f"emitted rotation steps {got} != angle spec {want}")
+        raise Failure("pipeline:steps" + sfx, case, f"emitted rotation steps {got} for {typ} angle != angle spec {want}")
     try:
         within(got, angle, 1e-4)
     except _TooFar as e:
-        raise Failure("pipeline:tolerance", case, f"emitted steps {got} are {float(e.args[0]):.3e} from {angle!r}")
+        raise Failure("pipeline:tolerance" + sfx, case, f"emitted steps {got} are {float(e.args[0]):.3e} from {typ} angle {angle!r}")
     return len(got)
+
+
+def _hw_config(hw: str, nq: int):
+    from netqasm.sdk.build_types import GenericHardwareConfig, NVHardwareConfig
+
+    if hw == "nv":
+        return {"hardware_config": NVHardwareConfig(nq)}
+    if hw == "generic":
+        return {"hardware_config": GenericHardwareConfig(nq)}
+    return {}
+
+
+def rotations_per_logical_qubit(instrs):
+    """Interpret the emitted instructions with an address model that is independent of the builder:
+    `set Qx v` loads a virtual address, qalloc creates a new logical qubit there, `mov a b` carries the logical qubit at a over to b
+    (the qubit allocated at b just before was only the landing place), qfree releases the address.
+    Returns (logical qubits in order of allocation that were not a landing place, each with its list of (mnemonic, n, d); problems)."""
+    regs = {}
+    at = {}  # virtual address -> token
+    tokens = []
+    problems = []
+    for ins in instrs:
+        mn = ins.mnemonic
+        ops = ins.operands
+        if mn == "set":
+            if str(ops[0]).startswith("Q"):
+                regs[str(ops[0])] = ops[1].value
+            continue
+        if mn == "qalloc":
+            tok = {"rots": [], "landing": False, "addr0": regs.get(str(ops[0]))}
+            tokens.append(tok)
+            at[regs.get(str(ops[0]))] = tok
+        elif mn == "qfree":
+            at.pop(regs.get(str(ops[0])), None)
+        elif mn == "mov":
+            src, tgt = regs.get(str(ops[0])), regs.get(str(ops[1]))
+            if src in at:
+                if tgt in at:
+                    at[tgt]["landing"] = True
+                at[tgt] = at[src]
+                at[src] = {"rots": [], "landing": True, "addr0": src}
+            else:
+                problems.append(f"mov from virtual address {src}, which holds no qubit")
+        elif mn.startswith("rot_"):
+            a = regs.get(str(ops[0]))
+            step = (mn, ops[1].value, ops[2].value)
+            if a not in at:
+                problems.append(f"rotation step {mn} {step[1]} {step[2]} addresses virtual qubit {a}, which is not allocated at that point")
+            else:
+                at[a]["rots"].append(step)
+    return [t for t in tokens if not t["landing"]], problems
+
+
+def check_program(case) -> dict:
+    """float-angle rotations in the middle of an SDK program: every step must arrive at the qubit the rotation was requested for"""
+    from checks.c16 import _debug_conn
+    from netqasm.backend.messages import deserialize_host_msg
+    from netqasm.lang.parsing import deserialize
+    from netqasm.sdk.qubit import Qubit
+
+    conn = _debug_conn(**_hw_config(case["hw"], case["nq"]))
+    live = []  # indices of logical qubits (order of creation) that are still allocated
+    expected = []  # per logical qubit: the steps requested on it
+    info = {"rots": 0, "steps": 0, "subs": 0, "shortcut": 0, "typed": 0}
+    qubits = []
+    prev = None
+    try:
+        for op in case["ops"]:
+            kind = op[0]
+            if kind == "new":
+                qubits.append(Qubit(conn))
+                expected.append([])
+                live.append(len(qubits) - 1)
+            elif kind == "flush":
+                conn.flush()
+            elif not live:
+                continue
+            elif kind == "rot":
+                k = live[op[1] % len(live)]
+                angle = float(op[3])
+                getattr(qubits[k], "rot_" + op[2])(angle=typed(angle, op[4]))
+                steps = [tuple(x) for x in spec(angle, None)]
+                expected[k].append((op, steps))
+                info["rots"] += 1
+                info["steps"] += len(steps)
+                info["typed"] += op[4] != "float"
+            elif kind == "meas":
+                k = live[op[1] % len(live)]
+                if prev == "new" and case["hw"] == "nv" and k != len(qubits) - 1:
+                    info["shortcut"] += 1
+                qubits[k].measure()
+                live.remove(k)
+            elif kind == "gate":
+                k = live[op[1] % len(live)]
+                getattr(qubits[k], op[2])()
+            else:
+                raise ValueError(kind)
+            prev = kind
+        conn.flush()
+    except _Timeout:
+        raise
+    except Exception as e:
+        raise Failure("program:rejected", case, f"program with float-angle rotations raised {type(e).__name__}: {e} at {op}")
+    instrs = []
+    for raw in conn.storage:
+        m = deserialize_host_msg(raw)
+        if type(m).__name__ == "SubroutineMessage":
+            info["subs"] += 1
+            instrs.extend(deserialize(m.subroutine).instructions)
+    info["moves"] = sum(1 for i in instrs if i.mnemonic == "mov")
+    logical, problems = rotations_per_logical_qubit(instrs)
+    if problems:
+        raise Failure("program:step-on-unallocated-address", case, "; ".join(problems[:3]))
+    if len(logical) != len(qubits):
+        raise Failure("program:qubits", case, f"{len(qubits)} qubits were created, the subroutines allocate {len(logical)} (not counting landing places of mov)")
+    for k, tok in enumerate(logical):
+        want = [("rot_" + op[2].lower(), n, d) for op, steps in expected[k] for n, d in steps]
+        if tok["rots"] != want:
+            raise Failure(
+                "program:steps-on-requested-qubit", case,
+                f"qubit #{k} (allocated at virtual address {tok['addr0']}): rotations requested {[(o[2], o[3]) for o, _ in expected[k]]} -> steps {want}, but the subroutines apply {tok['rots']} to it",
+            )
+        for op, steps in expected[k]:
+            try:
+                within(steps, float(op[3]), 1e-4)
+            except _TooFar as e:
+                raise Failure("program:tolerance", case, f"steps {steps} emitted for rot_{op[2]}({op[4]} {op[3]}) are {float(e.args[0]):.3e} away")
+    return info
 
 
 TWO_PI_F = 2 * math.pi
@@ -159,6 +323,42 @@ def st_tol():
         st.none(),
         st.sampled_from([1e-2, 1e-3, 1e-4, 1e-5, 1e-6, 1e-7, 1e-8, 1e-9]),
         st.floats(-9.0, -2.0).map(lambda e: 10.0**e),
+    )
+
+
+def st_typ():
+    return st.sampled_from(TYPES[1:])
+
+
+def st_program():
+    qi = st.integers(0, 2)
+    typ = st.sampled_from(("float", "float") + TYPES[1:])
+    rot = st.tuples(st.just("rot"), qi, st.sampled_from("XYZ"), st_angle().map(repr), typ).map(list)
+    meas = st.tuples(st.just("meas"), qi).map(list)
+    new = st.just(["new"])
+    flush = st.just(["flush"])
+    gate = st.tuples(st.just("gate"), qi, st.sampled_from(["H", "X", "Z"])).map(list)
+    # chunks: single operations and the two usual pairs (rotate a qubit and measure it; create a qubit and directly measure an older one)
+    chunk = st.one_of(
+        rot.map(lambda r: [r]),
+        meas.map(lambda m: [m]),
+        new.map(lambda n: [n]),
+        flush.map(lambda f: [f]),
+        gate.map(lambda g: [g]),
+        st.tuples(rot, st.booleans()).map(lambda t: [t[0], ["meas", t[0][1]]]),
+        st.tuples(new, qi).map(lambda t: [t[0], ["meas", t[1]]]),
+    )
+    return st.builds(
+        lambda hw, k, fl, chunks: {
+            "kind": "program",
+            "hw": hw,
+            "nq": 8,
+            "ops": [["new"]] * k + ([["flush"]] if fl else []) + [o for c in chunks for o in c],
+        },
+        st.sampled_from(["nv", "nv", "nv", "generic", "default"]),
+        st.sampled_from([1, 2, 2, 3]),
+        st.sampled_from([True, True, True, False]),
+        st.lists(chunk, min_size=1, max_size=8),
     )
 
 
@@ -211,6 +411,37 @@ def shard(ctx: Ctx) -> None:
 
     ctx.search(st.tuples(st_angle(), st.sampled_from("XYZ")), body_p, n // 40, name="c19-pipe", salt=1)
 
+    def body_typed(t):
+        # numpy.float64 and instances of float subclasses are floats: same domain, same oracle
+        angle, tol, typ = t
+        steps = guarded(check_angle, {"kind": "spec", "angle": repr(angle), "tol": repr(tol), "typ": typ}, angle, tol, typ)
+        eff = 1e-4 if tol is None else tol
+        red = math.fmod(angle, TWO_PI_F)
+        near = min(abs(red), abs(abs(red) - TWO_PI_F)) < eff
+        stt.case(["typed", typ, repr(angle), repr(tol)], not near, ["type:" + typ, f"type:{typ}:" + ("neg" if angle < 0 else "pos")])
+
+    ctx.search(st.tuples(st_angle(), st_tol(), st_typ()), body_typed, n // 10, name="c19-typed", salt=3)
+
+    def body_tp(t):
+        angle, axis, typ = t
+        steps = guarded(check_pipeline, {"kind": "pipeline", "angle": repr(angle), "axis": axis, "typ": typ}, angle, axis, typ)
+        stt.case(["pipe", typ, repr(angle), axis], steps >= 1, [f"pipeline:{typ}"])
+
+    ctx.search(st.tuples(st_angle(), st.sampled_from("XYZ"), st_typ()), body_tp, n // 100, name="c19-pipe-typed", salt=4)
+
+    def body_prog(case):
+        info = guarded(check_program, case, case)
+        labels = ["program:" + case["hw"], f"program:subroutines:{min(info['subs'], 4)}"]
+        if info["moves"]:
+            labels.append("program:relocation-by-mov")
+        if info["shortcut"]:
+            labels.append("program:fresh-qubit-then-measure-other(nv)")
+        if info["typed"]:
+            labels.append("program:typed-angle")
+        stt.case(["prog", case["hw"], case["ops"]], info["steps"] >= 1, labels)
+
+    ctx.search(st_program(), body_prog, n // 20, name="c19-program", salt=5)
+
 
 def replay(case):
     signal.signal(signal.SIGALRM, _alarm)
@@ -221,9 +452,11 @@ def replay(case):
                 check_angle(float(case["angle"]), float(t))
         elif case["kind"] == "spec":
             tol = case["tol"]
-            check_angle(float(case["angle"]), None if tol in (None, "None") else float(tol))
+            check_angle(float(case["angle"]), None if tol in (None, "None") else float(tol), case.get("typ", "float"))
+        elif case["kind"] == "program":
+            check_program(case)
         else:
-            check_pipeline(float(case["angle"]), case["axis"])
+            check_pipeline(float(case["angle"]), case["axis"], case.get("typ", "float"))
     except _Timeout:
         return Failure("spec:does-not-terminate", case, "timeout")
     except Failure as f:
